@@ -2,12 +2,12 @@
 import json, sys, os
 sys.path.insert(0, os.path.dirname(os.path.dirname(os.path.abspath(__file__))))
 from vt.props import PROPS
-from vt.manifest_texts import TEXTS, NOT_APPLICABLE
+from vt.manifest_texts import texts_for, NOT_APPLICABLE
 
 BASE = "cd /repo && /venv/bin/python -m pytest -ra -q -p no:cacheprovider --timeout=900 --continue-on-collection-errors"
 checks = []
 for pid in sorted(PROPS):
-    t = TEXTS[pid]
+    t = texts_for(pid, PROPS[pid]['explanation'])
     checks.append({
         "property_id": pid,
         "quick_cmd": f"python3 -m vt.check {pid} --tier quick",
